@@ -614,6 +614,8 @@ pub struct World {
     pub twin_excused: u64,
     /// when set: Display and Debug of every error and Debug of every processing result (C14)
     pub leak_sink: Option<Vec<String>>,
+    /// the receiver's own pending commit (relay index) just before the current delivery
+    pub own_pending_before_delivery: Option<usize>,
 }
 
 pub fn relay_url(n: u8) -> RelayUrl {
@@ -786,6 +788,7 @@ impl World {
             twin_checks: 0,
             twin_excused: 0,
             leak_sink: None,
+            own_pending_before_delivery: None,
         };
         // deliver the initial welcomes
         for (k, rumor) in res.welcome_rumors.iter().enumerate() {
@@ -2152,6 +2155,7 @@ impl World {
         obs: &mut dyn Observer,
     ) -> Result<Outcome, Failure> {
         self.delivery_seq += 1;
+        self.own_pending_before_delivery = self.clients[m].own_pending;
         let ev = self.relay[idx].ev.clone();
         let before_key = self.clients[m].cur.clone();
         let redelivery = self.clients[m].delivered.contains_key(&idx);
